@@ -112,7 +112,7 @@ fn random_labels(rng: &mut Rng, n: usize) -> Vec<usize> {
         let l = match style {
             0 => ls.len(),                                            // identity
             1 => 3 * ls.len() + 5,                                    // sparse
-            2 => (1usize << 32) + (rng.next() % 64) as usize,         // beyond u32
+            2 => (1usize << 32) + 3 * ls.len() + (rng.next() % 3) as usize, // beyond u32
             _ => rng.bits_biased(64) as usize,
         };
         if seen.insert(l) {
